@@ -123,6 +123,9 @@ def judge(ctx, ast, sp, T, vi, v):
                 entries.append(('Cls.from_dict_unchecked', lambda d: T.from_dict_unchecked(d)))
         elif isinstance(v, (list, tuple)):
             entries.append(('Cls(*args)', lambda d: T(*d)))
+    if values.kind(v) in ('map', 'seq'):
+        # serialising never writes into what it is given either (a container handed over as the value of a container type)
+        entries.append(('into_data', lambda d: pane.into_data(d, T)))
     first = None
     shape = values.kind(v)
     for name, fn in entries:
